@@ -1,6 +1,7 @@
 package midix
 
 import (
+	"github.com/berquerant/crd/errorx"
 	"gitlab.com/gomidi/midi/v2"
 	"gitlab.com/gomidi/midi/v2/smf"
 )
@@ -59,6 +60,14 @@ type MetaTempo struct {
 
 func (m MetaTempo) Call(t *smf.Track, deltaticks uint32) {
 	t.Add(deltaticks, smf.MetaTempo(m.BPM))
+}
+
+// validate reports a tempo whose microseconds per quarter note do not fit the 3 bytes of a set tempo event.
+func (m MetaTempo) validate() error {
+	if us := 60000000 / m.BPM; us < 1 || us > 0xFFFFFF {
+		return errorx.Invalid("tempo %.0f bpm does not fit a midi file", m.BPM)
+	}
+	return nil
 }
 
 type MetaMeter struct {
